@@ -73,12 +73,14 @@ PROPS = {
                 "keyword of that kind plus random mutations; compared: verdict and error line:col against the model (code's table) and the RFC table / ABNF",
     },
     "C10": {
-        "streams": {"ytree": {"quick": 10000, "thorough": 200000}, "yreal": {"quick": 1500, "thorough": 40000}},
+        "streams": {"ytree": {"quick": 10000, "thorough": 200000}, "yreal": {"quick": 1500, "thorough": 40000},
+                    "yarg": {"quick": 8000, "thorough": 150000}},
         "trusted": [],
         "modelled": ["the parser's one normalisation of the tree (a short-hand case is wrapped in a case node of the same name and position) is applied to the model's tree by the driver (Drv/Y.lean wrapCases), outside the theorems"],
         "rule": "yreal: generated YANG modules with real keywords (containers, lists, leaves, choices with explicit and short-hand cases, statements written after the children): walk of Tree.Root against the model's tree; "
                 "ytree: random statement trees (prefixed extension keywords, depth <=3/6, fan-out <=4) spelled with random trivia (blanks, tabs, LF, CRLF, /* */ and // comments containing statement "
-                "punctuation) at every token boundary and a random quoting of every argument; compared: walk of Tree.Root (keyword, argument, line:col of every keyword) with the model and with the generated tree",
+                "punctuation) at every token boundary and a random quoting of every argument; compared: walk of Tree.Root (keyword, argument, line:col of every keyword) with the model and with the generated tree; "
+                "yarg (the stream of C08: one value in every quoting form and as '+' pieces, a piece's source text repeated character for character at another column): another quoting form of a value gives the same argument",
     },
     "C13": {
         "streams": {"ytypes": {"quick": 4000, "thorough": 200000}, "yvals": {"quick": 2000, "thorough": 100000, "spec_proj": "verdicts"}},
